@@ -208,6 +208,31 @@ func depth(n *node) int {
 	return 1 + depth(n.Inner)
 }
 
+func countKind(n *node, kind string) int {
+	c := 0
+	for ; n != nil; n = n.Inner {
+		if n.Kind == kind {
+			c++
+		}
+	}
+	return c
+}
+
+func depthBucket(d int) string {
+	switch {
+	case d <= 6:
+		return fmt.Sprint(d)
+	case d <= 9:
+		return "7-9"
+	case d <= 13:
+		return "10-13"
+	case d <= 20:
+		return "14-20"
+	default:
+		return ">20"
+	}
+}
+
 func shape(n *node) string {
 	if n == nil {
 		return ""
@@ -295,6 +320,76 @@ func genLeaf(rng *vlib.Rng) *node {
 	}
 }
 
+// wrapper mixes: which wrapper kinds a chain is built from
+const (
+	mixAll    = iota // OpError, url.Error, os.SyscallError, fmt %w
+	mixOpOnly        // OpErrors only
+	mixNoURL         // OpError, os.SyscallError, fmt %w (url.Error ends the errors.As walk with a type-only text)
+)
+
+func genWrapper(rng *vlib.Rng, mix int, inner *node) *node {
+	k := rng.Intn(7)
+	switch mix {
+	case mixOpOnly:
+		k = 0
+	case mixNoURL:
+		if k == 3 {
+			k = 0
+		}
+	}
+	switch k {
+	case 0, 1, 2:
+		return &node{Kind: "op", S1: vlib.Pick(rng, opWords), S2: vlib.Pick(rng, netWords), Src: optAddress(rng), Addr: optAddress(rng), Inner: inner}
+	case 3:
+		return &node{Kind: "url", S1: vlib.Pick(rng, opWords), S2: genAddress(rng, 2), Inner: inner}
+	case 4:
+		return &node{Kind: "sys", S1: vlib.Pick(rng, sysWords), Inner: inner}
+	default:
+		return &node{Kind: "wrap", S1: vlib.Pick(rng, []string{"", "handshake failed: ", "outgoing connection: ", "obfs4: "}),
+			S2: vlib.Pick(rng, []string{"", " (giving up)", "; retrying"}), Inner: inner}
+	}
+}
+
+// genChain: `wrappers` wrappers of the given mix around `leaf`.
+func genChain(rng *vlib.Rng, wrappers, mix int, leaf *node) *node {
+	n := leaf
+	for i := 0; i < wrappers; i++ {
+		n = genWrapper(rng, mix, n)
+	}
+	return n
+}
+
+// addressLeaves: one leaf of every address-bearing kind (incl. an OpError with addresses
+// around a syscall error, and a url.Error), for the deterministic deep chains.
+func addressLeaves(rng *vlib.Rng) []*node {
+	errnoLeaf := &node{Kind: "errno", N: int(syscall.ECONNREFUSED)}
+	return []*node{
+		{Kind: "dns", S1: "no such host", S2: genAddress(rng, 0), S3: genAddress(rng, 1)},
+		{Kind: "addr", S1: "missing port in address", S2: genAddress(rng, 0)},
+		{Kind: "unk", S1: genAddress(rng, 0), Ptr: rng.Bool()},
+		{Kind: "inv", S1: genAddress(rng, 0), Ptr: rng.Bool()},
+		{Kind: "op", S1: "dial", S2: "tcp", Src: optAddress(rng), Addr: strp(genAddress(rng, 1)), Inner: &node{Kind: "sys", S1: "connect", Inner: errnoLeaf}},
+		{Kind: "url", S1: "Get", S2: genAddress(rng, 2), Inner: &node{Kind: "plain", S1: "EOF"}},
+		{Kind: "other", N: 0, S1: genAddress(rng, 0)},
+	}
+}
+
+func strp(s string) *string { return &s }
+
+// genDepth: number of wrappers, a distribution with a long tail (0..3 mostly, up to 24).
+func genDepth(rng *vlib.Rng) int {
+	switch k := rng.Intn(20); {
+	case k < 12:
+		return rng.Intn(4)
+	case k < 16:
+		return rng.Range(4, 7)
+	case k < 19:
+		return rng.Range(8, 13)
+	default:
+		return rng.Range(14, 24)
+	}
+}
+
 func genTree(rng *vlib.Rng, d int) *node {
 	if d <= 1 {
 		return genLeaf(rng)
@@ -372,7 +467,8 @@ func checkErr(r *vlib.Run, d *vlib.Driver, c tcase) {
 		}
 	}
 	r.Case("err "+tree, depth(c.Tree) >= 2 && long >= 1)
-	r.Count("depth", fmt.Sprint(depth(c.Tree)))
+	r.Count("depth", depthBucket(depth(c.Tree)))
+	r.Count("nested-OpErrors", depthBucket(countKind(c.Tree, "op")))
 	r.Count("top-kind", c.Tree.Kind)
 	if c.Note != "" {
 		r.Count("corpus", c.Note)
@@ -571,7 +667,7 @@ func genAddrCase(rng *vlib.Rng) tcase {
 func main() {
 	r := vlib.NewRun("C20")
 	r.Rule = "error case = a real error value: a leaf (AddrError, DNSError, InvalidAddrError / UnknownNetworkError as value or pointer, syscall.Errno, " +
-		"other net.Error implementations, errors.New) under 0..3 wrappers (OpError with nil/non-nil Source/Addr, url.Error, os.SyscallError, fmt %w), " +
+		"other net.Error implementations, errors.New) under 0..24 wrappers (long-tailed depth; OpError with nil/non-nil Source/Addr, url.Error, os.SyscallError, fmt %w; mixed, without url.Error, and OpError-only chains; every run also contains fixed chains of 1..6, 8, 12, 16 and 20 wrappers around each address-bearing leaf kind), " +
 		"with fresh host names / IPv4 / IPv6 / host:port / URLs in every address-bearing field, plus a twin that differs only in those fields; " +
 		"address case = host:port, [v6]:port, no port, bare v6, empty, bracket/colon misuse, garbage, random bytes (with a twin of equal port). " +
 		"Non-trivial: an error of depth >= 2 carrying an address of >= 7 characters; an address string containing ':' or brackets. Distinct by canonical input."
@@ -617,8 +713,27 @@ func main() {
 	callSites(r, nil) // the call sites in obfs4proxy (package main), through the hook driver
 
 	rng := vlib.NewRng(r.Seed)
+	// deterministic part: chains of 1..6, 8, 12, 16, 20 wrappers, OpError-only as well as mixed,
+	// around every address-bearing leaf kind (a defect that needs N nested OpErrors shows here
+	// whatever the seed)
+	for _, w := range []int{1, 2, 3, 4, 5, 6, 8, 12, 16, 20} {
+		for _, mix := range []int{mixOpOnly, mixNoURL, mixAll} {
+			for rep := 0; rep < 3; rep++ {
+				for _, leaf := range addressLeaves(rng) {
+					t := genChain(rng, w, mix, leaf)
+					check(r, d, tcase{Kind: "err", Tree: t, Twin: twin(rng, t), Note: ""})
+				}
+			}
+		}
+	}
 	for i, n := 0, r.Scale(60000, 1000000); i < n; i++ {
-		t := genTree(rng, rng.Range(1, 4))
+		var t *node
+		switch i % 4 {
+		case 0: // the original shallow trees
+			t = genTree(rng, rng.Range(1, 4))
+		default: // long-tailed depth, three wrapper mixes
+			t = genChain(rng, genDepth(rng), vlib.Pick(rng, []int{mixAll, mixNoURL, mixNoURL, mixOpOnly}), genLeaf(rng))
+		}
 		check(r, d, tcase{Kind: "err", Tree: t, Twin: twin(rng, t)})
 	}
 	for i, n := 0, r.Scale(24000, 350000); i < n; i++ {
